@@ -28,7 +28,7 @@ mod verif_nx_filefmt {
         s.encode_utf16().flat_map(|u| if le { u.to_le_bytes() } else { u.to_be_bytes() }).collect()
     }
 
-    const ALPHA: [&str; 7] = ["a", "\u{e9}", "\u{20ac}", "\u{1F600}", "\n", ";", "\u{3000}"];
+    const ALPHA: [&str; 8] = ["a", "\u{e9}", "\u{20ac}", "\u{1F600}", "\n", ";", "\u{3000}", "\u{FEFF}"];
 
     fn texts(f: &mut dyn FnMut(&str)) {
         f("");
@@ -48,6 +48,10 @@ mod verif_nx_filefmt {
         ];
         texts(&mut |t| {
             for (enc, bom) in cases {
+                if bom.is_none() && t.starts_with('\u{FEFF}') {
+                    // without a BOM a leading U+FEFF IS a byte-order mark: inherently ambiguous, outside the contract
+                    continue;
+                }
                 // independent encoding of the text
                 let expected_body: Option<Vec<u8>> = if enc == encoding_rs::UTF_16LE {
                     Some(utf16(t, true))
@@ -123,6 +127,43 @@ mod verif_nx_filefmt {
         });
         println!("NX filefmt_malformed_and_check: {} cases", n);
         assert!(n > 1_000, "enumeration ran");
+    }
+
+    // a batch: files that cannot be decoded neither change nor disturb the others, whatever the scheduling
+    #[test]
+    fn verif_nx_filefmt_batch() {
+        let mut n = 0u64;
+        for threads in [1usize, 3] {
+            let dir = std::env::temp_dir().join(format!("verif_nx_ffb_{}_{}", std::process::id(), threads));
+            std::fs::create_dir_all(&dir).unwrap();
+            let mut paths: Vec<String> = Vec::new();
+            let mut expect: Vec<Vec<u8>> = Vec::new();
+            for i in 0..40 {
+                let path = dir.join(format!("b{:02}.pas", i));
+                let (bytes, exp): (Vec<u8>, Vec<u8>) = if i % 2 == 0 {
+                    let bad = vec![b'x', b'0' + (i % 10) as u8, 0xFF, b';'];
+                    (bad.clone(), bad)
+                } else {
+                    (format!("a{}   :=   {};", i, i).into_bytes(), format!("a{} := {};", i, i).into_bytes())
+                };
+                std::fs::write(&path, &bytes).unwrap();
+                paths.push(path.to_string_lossy().to_string());
+                expect.push(exp);
+            }
+            let f = ff(encoding_rs::UTF_8);
+            let errors = std::sync::atomic::AtomicUsize::new(0);
+            let pool = rayon::ThreadPoolBuilder::new().num_threads(threads).build().unwrap();
+            pool.install(|| f.format_files(&paths, |_e| { errors.fetch_add(1, std::sync::atomic::Ordering::SeqCst); }, &[]));
+            assert!(errors.load(std::sync::atomic::Ordering::SeqCst) == 20, "OB filefmt/batch_errors_per_file: exactly the undecodable files are reported\n threads={} errors={}", threads, errors.load(std::sync::atomic::Ordering::SeqCst));
+            for (i, p) in paths.iter().enumerate() {
+                let got = std::fs::read(p).unwrap();
+                assert!(got == expect[i], "OB filefmt/batch_equals_single: in a batch every file gets the result it gets alone; undecodable files stay untouched\n threads={} file={} got={:?} expected={:?}", threads, i, String::from_utf8_lossy(&got), String::from_utf8_lossy(&expect[i]));
+                n += 1;
+            }
+            let _ = std::fs::remove_dir_all(&dir);
+        }
+        println!("NX filefmt_batch: {} cases", n);
+        assert!(n == 80, "enumeration ran");
     }
 
     // files mode / check mode on real files
